@@ -148,6 +148,15 @@ theorem table_ok : Generated.derefWriteTable.ok = true := by decide
 its content by `'static` and has `NEEDS_TRACE = false` with no `trace`. -/
 theorem cells_static : Generated.derefWriteTable.cellsStatic = true := by decide
 
+/-- Lower bounds on the extracted table (a translator that silently drops rows cannot make
+`table_ok` / `cells_static` vacuous): the `Write` constructors, the `DerefWrite` / `IndexWrite`
+projection impls, one `Unlock` impl per lock type, the lock types' methods and the two std cell
+impls are there. -/
+theorem required_write_rows :
+    Generated.derefWriteTable.ctors.length ≥ 4 ∧ Generated.derefWriteTable.projs.length ≥ 10 ∧
+    Generated.derefWriteTable.unlocks.length ≥ 3 ∧ Generated.derefWriteTable.lockFns.length ≥ 30 ∧
+    Generated.derefWriteTable.cells.length ≥ 2 ∧ Generated.derefWriteTable.unclassified = [] := by decide
+
 
 /-- D2a shape: a local `&T` pointing into object 7 (not barriered), `from_mut`, `as_deref`. -/
 theorem unsound_witness_from_mut (t : Table) (pi : ProjImpl) (c : Ctor)
